@@ -3,7 +3,7 @@ from .common import *
 
 RULE = ("the same keygen / sign / try_sign requests are executed: first, after many unrelated operations on other keys, 16-fold concurrently on the harness's worker "
         "threads, in a second harness process, and through the byte-level function vs the in-memory SigningKey; all answers must be byte-identical to each other and "
-        "to the single model value; plus the kernel-checked verdict that the library has no ambient-state source outside the fast_verify feature")
+        "to the single model value; plus the kernel-checked verdict that the library has no ambient-state source outside the fast_verify feature; Seed objects built from 32 bytes whose tail beyond the hash length varies (same key, reload-and-verify)")
 ASSUMPTIONS = ["that safe Rust without shared mutable state cannot make a result depend on scheduling is an argument about Rust's type system (trusted, not formalised)",
                "process-level repetition is limited to a second harness process on the same machine"]
 
@@ -76,6 +76,35 @@ def run(ctx):
                 f = fields(a)
                 if (f.get("sig"), f.get("cb"), f.get("sk"), f.get("vk")) != (base.get("sig"), base.get("cb"), base.get("sk"), base.get("vk")):
                     ctx.fail("the result depends on the scratch buffer another key used before (%s)" % c.cls, [c.line[:300]], a[:120], res[i][1][:120])
+    # key generation depends on the seed only: bytes a Seed object carries beyond the hash length (Seed::from([u8; 32]) with a truncated
+    # hash) are not inputs; the generated key reloaded from its bytes must continue under the same public key
+    tcases = []
+    for H in ("S24", "S16", "K24", "K16", "S32"):
+        n = HASHES[H]
+        ps = rng.choice([[(3, 1)], [(2, 1), (3, 1)], [(3, 5)]])
+        seed = rng.bytes_(n)
+        plain = keygen_line(H, ps, seed)
+        tcases.append(Case(plain, "seed-object/plain", {"g": (H, ps, seed), "plain": plain}))
+        for tail in (bytes(32 - n), b"\xa5" * (32 - n), rng.bytes_(32 - n)):
+            tcases.append(Case("keygen H=%s params=%s seedfull=%s aux=none" % (H, params_str(ps), hx(seed + tail)), "seed-object/with-tail",
+                               {"g": (H, ps, seed), "plain": plain}))
+    res = ctx.both(tcases, None)
+    plain_ans = {c.line: a for c, a, b in res if c.cls == "seed-object/plain"}
+    vcases = []
+    for c, a, b in res:
+        if a != plain_ans[c.meta["plain"]]:
+            ctx.fail("key generation depends on bytes of the Seed object that are not part of the seed", [c.line, c.meta["plain"]], a[:200], plain_ans[c.meta["plain"]][:200])
+        elif a.startswith("ok") and c.cls == "seed-object/with-tail":
+            H, ps, seed = c.meta["g"]
+            f = fields(a)
+            vcases.append(Case(sign_line(H, unhx(f["sk"]), b"reloaded"), "seed-object/sign-reloaded", {"H": H, "vk": unhx(f["vk"])}))
+    ver = []
+    for c, a, b in ctx.both(vcases, None):
+        if a.startswith("ok"):
+            ver.append(Case(verify_line(c.meta["H"], b"reloaded", unhx(fields(a)["sig"]), c.meta["vk"]), "seed-object/verify-reloaded"))
+    for c, a, b in ctx.both(ver, None):
+        if a != "ok":
+            ctx.fail("a key reloaded from its bytes does not continue under the generated public key", [c.line[:300]], a, "ok")
     # ambient inventory (kernel-checked in Props/C09.lean); repeat the reading here for the evidence
     meta = json.load(open(os.path.join(LEAN, "HbsLms", "Generated", "meta.json")))
     bad = [a for a in meta["ambient"] if not a["fast_verify_only"]]
